@@ -1,7 +1,6 @@
 from __future__ import annotations
 
 import functools
-import itertools
 import operator
 
 from packaging.specifiers import InvalidSpecifier as PkgInvalidSpecifier
@@ -18,7 +17,6 @@ from dep_logic.specifiers.generic import GenericSpecifier
 from dep_logic.specifiers.range import RangeSpecifier
 from dep_logic.specifiers.special import AnySpecifier, EmptySpecifier
 from dep_logic.specifiers.union import UnionSpecifier
-from dep_logic.utils import is_not_suffix, version_split
 
 
 def from_specifierset(spec: SpecifierSet) -> VersionSpecifier:
@@ -27,6 +25,17 @@ def from_specifierset(spec: SpecifierSet) -> VersionSpecifier:
     return functools.reduce(
         operator.and_, map(_from_pkg_specifier, spec), RangeSpecifier()
     )
+
+
+def _release_series(version: Version, drop: int) -> tuple[Version, Version]:
+    """Return the first version of the release series obtained by dropping the
+    last ``drop`` release segments of ``version`` and the first version of the
+    next series: ``1.2`` -> (``1.2.0``, ``1.3.0``)."""
+    release = version.release[: len(version.release) - drop]
+    epoch = f"{version.epoch}!" if version.epoch else ""
+    lower = Version(epoch + ".".join(map(str, (*release, 0))))
+    upper = Version(epoch + ".".join(map(str, (*release[:-1], release[-1] + 1, 0))))
+    return lower, upper
 
 
 def _from_pkg_specifier(spec: Specifier) -> VersionSpecifier:
@@ -48,21 +57,12 @@ def _from_pkg_specifier(spec: Specifier) -> VersionSpecifier:
             include_min = True
             include_max = True
         else:
-            version_parts = list(
-                itertools.takewhile(lambda x: x != "*", version_split(version))
-            )
-            min = Version(".".join([*version_parts, "0"]))
-            version_parts[-1] = str(int(version_parts[-1]) + 1)
-            max = Version(".".join([*version_parts, "0"]))
+            min, max = _release_series(Version(version[:-2]), 0)
             include_min = True
             include_max = False
     elif op == "~=":
         min = Version(version)
-        version_parts = list(
-            itertools.takewhile(is_not_suffix, version_split(version))
-        )[:-1]
-        version_parts[-1] = str(int(version_parts[-1]) + 1)
-        max = Version(".".join([*version_parts, "0"]))
+        _, max = _release_series(min, 1)
         include_min = True
         include_max = False
     elif op == "!=":
@@ -76,12 +76,7 @@ def _from_pkg_specifier(spec: Specifier) -> VersionSpecifier:
                 simplified=str(spec),
             )
         else:
-            version_parts = list(
-                itertools.takewhile(lambda x: x != "*", version_split(version))
-            )
-            left = Version(".".join([*version_parts, "0"]))
-            version_parts[-1] = str(int(version_parts[-1]) + 1)
-            right = Version(".".join([*version_parts, "0"]))
+            left, right = _release_series(Version(version[:-2]), 0)
             return UnionSpecifier(
                 (
                     RangeSpecifier(max=left, include_max=False),
